@@ -77,7 +77,10 @@ theorem number_sat (E : Env) (v : Val) (h : SmallInt v) : (number E v).i = sat64
   cases v with
   | int k i =>
     simp only [SmallInt] at h
-    cases k <;> first | (simp only [number]; exact (small _ i h).symm) | exact gen
+    cases k <;> first
+      | (simp only [number]; exact (small _ i h).symm)
+      | (simp only [number]; rw [if_pos (by simp only [maxInt64]; omega)]; exact (small _ i h).symm)
+      | exact gen
   | _ => exact gen
 
 theorem clamp_slice (x : EInt) (L : Int) (h0 : 0 ≤ L) (h1 : L < 2^62) :
@@ -127,8 +130,8 @@ theorem strAt_eq (s : List Nat) (i : Nat) : strAt s i = (U s).getD i 0 := by
 /-- the unit found by stringAt, or none when the position is out of range -/
 theorem stringAt_cases (E : Env) (s : List Nat) (v : Val) (hs : SmallInt v) (hl : ((U s).length : Int) < 2^62) :
     (∃ p : Int, Spec.toInteger E v = .fin p ∧ 0 ≤ p ∧ p < (U s).length ∧
-        stringAt s (number E v).i = (U s).getD p.toNat 0) ∨
-    ((∀ p : Int, Spec.toInteger E v = .fin p → p < 0 ∨ p ≥ (U s).length) ∧ stringAt s (number E v).i = runeError) := by
+        stringAt s (number E v).i = some ((U s).getD p.toNat 0)) ∨
+    ((∀ p : Int, Spec.toInteger E v = .fin p → p < 0 ∨ p ≥ (U s).length) ∧ stringAt s (number E v).i = none) := by
   rw [number_sat E v hs]
   unfold stringAt
   rw [strLength_eq]
@@ -177,13 +180,13 @@ theorem withThis_eq (E : Env) (r : Recv) (h : NoLone r) (f : List Nat → Res) :
   rw [thisString_link E r h]
   split <;> simp_all
 
-/-! ## charAt / charCodeAt (all receivers; the code after fix 6afda39) -/
+/-! ## charAt / charCodeAt (all receivers) -/
 
 /-- C09.charAt_eq: for every receiver and every position argument charAt is §15.5.4.4, unless the unit
-    found is U+FFFD (region charAt_fffd) or a surrogate (region charAt_surrogate). -/
+    found is a surrogate (region charAt_surrogate: a Go string cannot hold a lone surrogate). -/
 theorem charAt_eq (E : Env) (r : Recv) (args : List Val) (hn : NoLone r) (hs : SmallInt (argAt args 0))
     (hl : ((U (thisString E r)).length : Int) < 2^62)
-    (hdev : ∀ u, Spec.charAt E r args = .str [u] → u ≠ 0xFFFD ∧ ¬ (0xD800 ≤ u ∧ u ≤ 0xDFFF)) :
+    (hdev : ∀ u, Spec.charAt E r args = .str [u] → ¬ (0xD800 ≤ u ∧ u ≤ 0xDFFF)) :
     charAt E r args = Spec.charAt E r args := by
   have hspec : Spec.charAt E r args = if coercible r then
       (match Spec.toInteger E (argAt args 0) with
@@ -205,18 +208,18 @@ theorem charAt_eq (E : Env) (r : Recv) (args : List Val) (hn : NoLone r) (hs : S
         rw [hspec, hx]; simp only []; rw [if_neg (by omega)]
       have hu := hdev _ hsp
       have hlt := unit_lt s p.toNat (by omega)
-      rw [hsp, if_neg (by simpa [runeError] using hu.1)]
+      rw [hsp]
+      simp only []
       rw [U_encodeRune_unit _ (by unfold Scalar; omega) hlt]
     · rw [hat, hspec]
-      simp only [if_true]
+      simp only []
       split
       · rename_i pos hx; rw [if_pos (hout pos hx)]
       · rfl
 
-/-- C09.charCodeAt_eq: §15.5.4.5 for every receiver, unless the unit found is U+FFFD. -/
+/-- C09.charCodeAt_eq: §15.5.4.5 for every receiver and every position argument, unconditionally. -/
 theorem charCodeAt_eq (E : Env) (r : Recv) (args : List Val) (hn : NoLone r) (hs : SmallInt (argAt args 0))
-    (hl : ((U (thisString E r)).length : Int) < 2^62)
-    (hdev : Spec.charCodeAt E r args ≠ .int 0xFFFD) :
+    (hl : ((U (thisString E r)).length : Int) < 2^62) :
     charCodeAt E r args = Spec.charCodeAt E r args := by
   have hspec : Spec.charCodeAt E r args = if coercible r then
       (match Spec.toInteger E (argAt args 0) with
@@ -233,14 +236,9 @@ theorem charCodeAt_eq (E : Env) (r : Recv) (args : List Val) (hn : NoLone r) (hs
     simp only [Bool.not_true, Bool.false_eq_true, if_false]
     generalize hS : thisString E r = s at *
     rcases stringAt_cases E s (argAt args 0) hs hl with ⟨p, hx, h0, h1, hat⟩ | ⟨hout, hat⟩
-    · rw [hat]
-      have hsp : Spec.charCodeAt E r args = .int ((U s).getD p.toNat 0) := by
-        rw [hspec, hx]; simp only []; rw [if_neg (by omega)]
-      rw [hsp] at hdev ⊢
-      rw [if_neg]
-      intro h; apply hdev; rw [h]; rfl
+    · rw [hat, hspec, hx]; simp only []; rw [if_neg (by omega)]
     · rw [hat, hspec]
-      simp only [if_true]
+      simp only []
       split
       · rename_i pos hx; rw [if_pos (hout pos hx)]
       · rfl
@@ -283,12 +281,11 @@ theorem optEnd_substring (E : Env) (v : Val) (L : Int) (h0 : 0 ≤ L) (h1 : L < 
   | undef => simp only [optEnd, Spec.optPos, Spec.clamp]; omega
   | _ => exact gen
 
-theorem U_runeSlice (s : List Nat) (hb : NoAstral s) (a b : Int) :
-    U (encodeRunes (runeSlice (decodeRunes s) a b)) = runeSlice (decodeRunes s) a b := by
-  apply U_encodeRunes_bmp
-  intro r hr
-  have hm : r ∈ decodeRunes s := List.mem_of_mem_drop (List.mem_of_mem_take hr)
-  exact ⟨decodeRunes_scalar s r hm, hb r hm⟩
+theorem utf16Value_runeSlice (s : List Nat) (a b : Int) :
+    utf16Value (runeSlice (U s) a b) = runeSlice (U s) a b := by
+  apply utf16Value_id
+  intro u hu
+  exact utf16Encode_lt (decodeRunes s) u (List.mem_of_mem_drop (List.mem_of_mem_take hu))
 
 theorem relIndex_range (L : Int) (x : EInt) (h0 : 0 ≤ L) : 0 ≤ Spec.relIndex L x ∧ Spec.relIndex L x ≤ L := by
   cases x <;> simp only [Spec.relIndex] <;> (try split) <;> omega
@@ -296,10 +293,10 @@ theorem relIndex_range (L : Int) (x : EInt) (h0 : 0 ≤ L) : 0 ≤ Spec.relIndex
 theorem clamp_range (L : Int) (x : EInt) (h0 : 0 ≤ L) : 0 ≤ Spec.clamp x 0 L ∧ Spec.clamp x 0 L ≤ L := by
   cases x <;> simp only [Spec.clamp] <;> omega
 
-/-- C09.slice_bmp: for every receiver, every argument list and every string without astral code points,
-    otto's slice (rune offsets, saturated int64 positions) is ES5 §15.5.4.13 (code-unit offsets, ToInteger). -/
-theorem slice_bmp (E : Env) (r : Recv) (args : List Val) (hl : NoLone r)
-    (hb : NoAstral (thisString E r)) (hlen : ((decodeRunes (thisString E r)).length : Int) < 2^62)
+/-- C09.slice_eq: for every receiver, every argument list and every string (astral code points included),
+    otto's slice (UTF-16 offsets, saturated int64 positions) is ES5 §15.5.4.13 (code-unit offsets, ToInteger). -/
+theorem slice_eq (E : Env) (r : Recv) (args : List Val) (hl : NoLone r)
+    (hlen : ((U (thisString E r)).length : Int) < 2^62)
     (h0 : SmallInt (argAt args 0)) (h1 : SmallInt (argAt args 1)) :
     slice E r args = Spec.slice E r args := by
   unfold Spec.slice
@@ -309,8 +306,8 @@ theorem slice_bmp (E : Env) (r : Recv) (args : List Val) (hl : NoLone r)
   | false => simp
   | true =>
     simp only [Bool.not_true, Bool.false_eq_true, if_false, if_true]
-    rw [U_bmp _ hb, rangeStartEnd_eq]
-    generalize hT : decodeRunes (thisString E r) = T at *
+    rw [rangeStartEnd_eq]
+    generalize hT : U (thisString E r) = T at *
     have hL0 : (0 : Int) ≤ (T.length : Int) := by omega
     rw [optEnd_slice E _ _ hL0 hlen h1, number_sat E _ h0, clamp_slice _ _ hL0 hlen]
     have ha := relIndex_range T.length (Spec.toInteger E (argAt args 0)) hL0
@@ -321,13 +318,13 @@ theorem slice_bmp (E : Env) (r : Recv) (args : List Val) (hl : NoLone r)
     · rw [if_pos hle]
       have : (a + max (b - a) 0).toNat - a.toNat = 0 := by omega
       simp [Spec.sub, this]
-    · rw [if_neg hle, ← hT, U_runeSlice _ hb, hT]
+    · rw [if_neg hle, ← hT, utf16Value_runeSlice, hT]
       have : (a + max (b - a) 0).toNat - a.toNat = (b - a).toNat := by omega
       simp [Spec.sub, runeSlice, this]
 
-/-- C09.substring_bmp: §15.5.4.15 -/
-theorem substring_bmp (E : Env) (r : Recv) (args : List Val) (hl : NoLone r)
-    (hb : NoAstral (thisString E r)) (hlen : ((decodeRunes (thisString E r)).length : Int) < 2^62)
+/-- C09.substring_eq: §15.5.4.15, for every receiver, argument list and string -/
+theorem substring_eq (E : Env) (r : Recv) (args : List Val) (hl : NoLone r)
+    (hlen : ((U (thisString E r)).length : Int) < 2^62)
     (h0 : SmallInt (argAt args 0)) (h1 : SmallInt (argAt args 1)) :
     substring E r args = Spec.substring E r args := by
   unfold Spec.substring
@@ -337,8 +334,8 @@ theorem substring_bmp (E : Env) (r : Recv) (args : List Val) (hl : NoLone r)
   | false => simp
   | true =>
     simp only [Bool.not_true, Bool.false_eq_true, if_false, if_true]
-    rw [U_bmp _ hb, rangeStartEnd_eq]
-    generalize hT : decodeRunes (thisString E r) = T at *
+    rw [rangeStartEnd_eq]
+    generalize hT : U (thisString E r) = T at *
     have hL0 : (0 : Int) ≤ (T.length : Int) := by omega
     rw [optEnd_substring E _ _ hL0 hlen h1, number_sat E _ h0, clamp_substring _ _ hL0 hlen]
     have ha := clamp_range T.length (Spec.toInteger E (argAt args 0)) hL0
@@ -348,13 +345,13 @@ theorem substring_bmp (E : Env) (r : Recv) (args : List Val) (hl : NoLone r)
     simp only []
     by_cases hgt : a > b
     · rw [if_pos hgt]; simp only []
-      rw [← hT, U_runeSlice _ hb, hT]
+      rw [← hT, utf16Value_runeSlice, hT]
       have e1 : min a b = b := by omega
       have e2 : max a b = a := by omega
       have : a.toNat - b.toNat = (a - b).toNat := by omega
       simp [Spec.sub, runeSlice, e1, e2, this]
     · rw [if_neg hgt]; simp only []
-      rw [← hT, U_runeSlice _ hb, hT]
+      rw [← hT, utf16Value_runeSlice, hT]
       have e1 : min a b = a := by omega
       have e2 : max a b = b := by omega
       have : b.toNat - a.toNat = (b - a).toNat := by omega
@@ -446,18 +443,18 @@ theorem optPos_eq (E : Env) (v : Val) (d : EInt) :
     Spec.optPos E v d = if v == .undef then d else Spec.toInteger E v := by
   cases v <;> rfl
 
-/-- C09.substr_bmp: Annex B.2.3 for every receiver, every argument list (lengths up to ±∞ included) and every
-    string without astral code points (code after fix d18503f: no overflow side condition is needed any more) -/
-theorem substr_bmp (E : Env) (r : Recv) (args : List Val) (hl : NoLone r)
-    (hb : NoAstral (thisString E r)) (hlen : ((decodeRunes (thisString E r)).length : Int) < 2^62)
+/-- C09.substr_eq: Annex B.2.3 for every receiver, every argument list (lengths up to ±∞ included) and
+    every string (astral code points included) -/
+theorem substr_eq (E : Env) (r : Recv) (args : List Val) (hl : NoLone r)
+    (hlen : ((U (thisString E r)).length : Int) < 2^62)
     (h0 : SmallInt (argAt args 0)) (h1 : SmallInt (argAt args 1)) :
     substr E r args = Spec.substr E r args := by
   unfold Spec.substr substr
-  rw [thisStringNoCheck_link E r hl, U_bmp _ hb]
+  rw [thisStringNoCheck_link E r hl]
   dsimp only
   rw [rangeStartLength_eq]
   dsimp only
-  generalize hT : decodeRunes (thisString E r) = T at *
+  generalize hT : U (thisString E r) = T at *
   have hL0 : (0 : Int) ≤ (T.length : Int) := by omega
   rw [optLen_eq E _ _ h1, number_sat E _ h0, clamp_slice _ _ hL0 hlen, optPos_eq]
   have core := substr_core T.length (Spec.toInteger E (argAt args 0)) (Spec.toInteger E (argAt args 1)) hL0 hlen
@@ -478,7 +475,7 @@ theorem substr_bmp (E : Env) (r : Recv) (args : List Val) (hl : NoLone r)
       obtain ⟨d1, d2, d3, d4⟩ := c2 (by omega)
       have d1' : ¬ r6 ≤ 0 := by omega
       rw [if_neg d4, d3, if_neg d1', d2]
-      rw [← hT, U_runeSlice _ hb, hT]
+      rw [← hT, utf16Value_runeSlice, hT]
       have : (a + r6).toNat - a.toNat = (a + r6 - a).toNat := by omega
       simp [Spec.sub, runeSlice, this]
 
@@ -653,40 +650,36 @@ def sAXB : List Nat := [0x61, 0xF0, 0x9D, 0x92, 0xB3, 0x62]        -- "a𝒳b" (
 
 set_option maxRecDepth 4000
 
--- rune_offsets: "a𝒳b".slice(1,2) / .substring(2,3) / .substr(2,1)
-example : slice E0 (.strObj sAXB) [num 1, num 2] ≠ Spec.slice E0 (.strObj sAXB) [num 1, num 2] := by decide
-example : substring E0 (.strObj sAXB) [num 2, num 3] ≠ Spec.substring E0 (.strObj sAXB) [num 2, num 3] := by decide
-example : substr E0 (.strObj sAXB) [num 2, num 1] ≠ Spec.substr E0 (.strObj sAXB) [num 2, num 1] := by decide
--- charAt_fffd: "�".charCodeAt(0), .charAt(0), [0]
-example : charCodeAt E0 (.strObj [0xEF, 0xBF, 0xBD]) [num 0] ≠ Spec.charCodeAt E0 (.strObj [0xEF, 0xBF, 0xBD]) [num 0] := by decide
-example : charAt E0 (.strObj [0xEF, 0xBF, 0xBD]) [num 0] ≠ Spec.charAt E0 (.strObj [0xEF, 0xBF, 0xBD]) [num 0] := by decide
-example : index E0 (.strObj [0xEF, 0xBF, 0xBD]) (.str [0x30]) ≠ Spec.index E0 (.strObj [0xEF, 0xBF, 0xBD]) (.str [0x30]) := by decide
--- charAt_surrogate: "𝒳".charAt(0)
+-- charAt_surrogate: "𝒳".charAt(0) (a Go string cannot hold the lone surrogate)
 example : charAt E0 (.strObj [0xF0, 0x9D, 0x92, 0xB3]) [num 0] ≠ Spec.charAt E0 (.strObj [0xF0, 0x9D, 0x92, 0xB3]) [num 0] := by decide
--- (region charAt_receiver_panic was repaired by fix 6afda39: charAt.call("abc", 1) is now "b")
-example : charAt E0 (.val (.str sABC)) [num 1] = .str [0x62] ∧ Spec.charAt E0 (.val (.str sABC)) [num 1] = .str [0x62] := by decide
 -- call_undefined_this: String.prototype.trim.call(undefined)
 example : trim E0 (callThis (.val .undef)) [] ≠ Spec.trim E0 (.val .undef) [] := by decide
 -- lone_surrogate: String.fromCharCode(0xD800).concat()
 example : concat E0 (.val16 [0xD800]) [] ≠ Spec.concat E0 (.val16 [0xD800]) [] := by decide
--- index_noncanonical: "abc"["01"]
-example : index E0 (.strObj sABC) (.str [0x30, 0x31]) ≠ Spec.index E0 (.strObj sABC) (.str [0x30, 0x31]) := by decide
--- (region substr_overflow_panic was repaired by fix d18503f: "abc".substr(1, Infinity) is now "bc")
-example : substr E0 (.strObj sABC) [num 1, .f64 (.inf false)] = .str [0x62, 0x63] ∧
-    Spec.substr E0 (.strObj sABC) [num 1, .f64 (.inf false)] = .str [0x62, 0x63] := by decide
--- indexOf_byte_offset: "aéb".indexOf("b", 2)
-example : indexOf E0 (.strObj sAEB) [.str [0x62], num 2] = .int 3 ∧ Spec.indexOf E0 (.strObj sAEB) [.str [0x62], num 2] = .int 2 := by decide
--- lastIndexOf_byte_offset: "aéb".lastIndexOf("b", 2)
-example : lastIndexOf E0 (.strObj sAEB) [.str [0x62], num 2] = .int (-1) ∧ Spec.lastIndexOf E0 (.strObj sAEB) [.str [0x62], num 2] = .int 2 := by decide
--- lastIndexOf_nan / lastIndexOf_neginf: "abc".lastIndexOf("c", NaN) / (…, -Infinity)
-example : lastIndexOf E0 (.strObj sABC) [.str [0x63], .f64 .nan] = .int (-1) ∧ Spec.lastIndexOf E0 (.strObj sABC) [.str [0x63], .f64 .nan] = .int 2 := by decide
-example : lastIndexOf E0 (.strObj sABC) [.str [0x63], .f64 (.inf true)] = .int 2 ∧ Spec.lastIndexOf E0 (.strObj sABC) [.str [0x63], .f64 (.inf true)] = .int (-1) := by decide
--- (region lastIndexOf_overflow_panic was repaired by fix 6684245: "abc".lastIndexOf("c", 2^63) is now 2)
+-- repaired regions now agree (kept as regression examples, both sides evaluated by the kernel):
+-- rune_offsets, charAt_fffd, indexOf/lastIndexOf_byte_offset, lastIndexOf_nan/_neginf, split_empty_sep_astral,
+-- substr/lastIndexOf overflow, toUint_big
+-- index_noncanonical (repaired by da2af68): "abc"["01"] is undefined, "abc"["1"] is "b"
+example : index E0 (.strObj sABC) (.str [0x30, 0x31]) = .undef ∧ Spec.index E0 (.strObj sABC) (.str [0x30, 0x31]) = .undef := by decide
+example : index E0 (.strObj sABC) (.str [0x31]) = .str [0x62] ∧ Spec.index E0 (.strObj sABC) (.str [0x31]) = .str [0x62] := by decide
+example : slice E0 (.strObj sAXB) [num 1, num 2] = .str [0xD835] ∧ Spec.slice E0 (.strObj sAXB) [num 1, num 2] = .str [0xD835] := by decide
+example : substring E0 (.strObj sAXB) [num 2, num 3] = Spec.substring E0 (.strObj sAXB) [num 2, num 3] := by decide
+example : substr E0 (.strObj sAXB) [num 3, num 1] = .str [0x62] ∧ Spec.substr E0 (.strObj sAXB) [num 3, num 1] = .str [0x62] := by decide
+example : charCodeAt E0 (.strObj [0xEF, 0xBF, 0xBD]) [num 0] = .int 0xFFFD ∧ Spec.charCodeAt E0 (.strObj [0xEF, 0xBF, 0xBD]) [num 0] = .int 0xFFFD := by decide
+example : charAt E0 (.strObj [0xEF, 0xBF, 0xBD]) [num 0] = Spec.charAt E0 (.strObj [0xEF, 0xBF, 0xBD]) [num 0] := by decide
+example : index E0 (.strObj [0xEF, 0xBF, 0xBD]) (.str [0x30]) = Spec.index E0 (.strObj [0xEF, 0xBF, 0xBD]) (.str [0x30]) := by decide
+example : indexOf E0 (.strObj sAEB) [.str [0x62], num 2] = .int 2 ∧ Spec.indexOf E0 (.strObj sAEB) [.str [0x62], num 2] = .int 2 := by decide
+example : indexOf E0 (.strObj sAXB) [.str [0x62], num 2] = .int 3 ∧ Spec.indexOf E0 (.strObj sAXB) [.str [0x62], num 2] = .int 3 := by decide
+example : lastIndexOf E0 (.strObj sAEB) [.str [0x62], num 2] = .int 2 ∧ Spec.lastIndexOf E0 (.strObj sAEB) [.str [0x62], num 2] = .int 2 := by decide
+example : lastIndexOf E0 (.strObj sABC) [.str [0x63], .f64 .nan] = .int 2 ∧ Spec.lastIndexOf E0 (.strObj sABC) [.str [0x63], .f64 .nan] = .int 2 := by decide
+example : lastIndexOf E0 (.strObj sABC) [.str [0x63], .f64 (.inf true)] = .int (-1) ∧ Spec.lastIndexOf E0 (.strObj sABC) [.str [0x63], .f64 (.inf true)] = .int (-1) := by decide
 example : lastIndexOf E0 (.strObj sABC) [.str [0x63], .f64 (.fin false 1 63)] = .int 2 ∧
     Spec.lastIndexOf E0 (.strObj sABC) [.str [0x63], .f64 (.fin false 1 63)] = .int 2 := by decide
--- split_empty_sep_astral: "a𝒳b".split("")
-example : split E0 (.strObj sAXB) [.str []] ≠ Spec.split E0 (.strObj sAXB) [.str []] := by decide
--- (region toUint_big was repaired by fix 919cc4b: String.fromCharCode(2^63 + 2048) is now unit 2048)
+example : split E0 (.strObj sAXB) [.str []] = .arr [[0x61], [0xD835], [0xDCB3], [0x62]] ∧
+    Spec.split E0 (.strObj sAXB) [.str []] = .arr [[0x61], [0xD835], [0xDCB3], [0x62]] := by decide
+example : substr E0 (.strObj sABC) [num 1, .f64 (.inf false)] = .str [0x62, 0x63] ∧
+    Spec.substr E0 (.strObj sABC) [num 1, .f64 (.inf false)] = .str [0x62, 0x63] := by decide
+example : charAt E0 (.val (.str sABC)) [num 1] = .str [0x62] ∧ Spec.charAt E0 (.val (.str sABC)) [num 1] = .str [0x62] := by decide
 example : fromCharCode E0 [.f64 (.fin false (2^52 + 1) 11)] = .str [2048] ∧
     Spec.fromCharCode E0 [.f64 (.fin false (2^52 + 1) 11)] = .str [2048] := by decide
 -- case_special: "ß".toUpperCase(), "İ".toLowerCase();  case_astral: "𐐀".toLowerCase()
@@ -695,8 +688,9 @@ example : toLowerCase E0 (.strObj [0xC4, 0xB0]) [] = .str [0x69] ∧ Spec.toLowe
 example : toLowerCase E0 (.strObj [0xF0, 0x90, 0x90, 0x80]) [] ≠ Spec.toLowerCase E0 (.strObj [0xF0, 0x90, 0x90, 0x80]) [] := by decide
 
 /-! ## Non-vacuity of the side conditions -/
-example : NoAstral sAEB ∧ NoLone (.strObj sAEB) ∧ SmallInt (num 2) ∧ SmallInt (.int .i64 7) ∧ ¬ NoAstral sAXB := by
-  refine ⟨by unfold NoAstral; decide, trivial, trivial, by show (7 : Int).natAbs < 2^53; decide, by unfold NoAstral; decide⟩
+example : NoLone (.strObj sAXB) ∧ NoLone (.val16 [0xD835, 0xDCB3]) ∧ SmallInt (num 2) ∧ SmallInt (.int .i64 7) ∧ ¬ NoLone (.val16 [0xD800]) := by
+  refine ⟨trivial, by show U (bytesOfUnits [0xD835, 0xDCB3]) = [0xD835, 0xDCB3]; decide, trivial,
+    by show (7 : Int).natAbs < 2^53; decide, by show ¬ (U (bytesOfUnits [0xD800]) = [0xD800]); decide⟩
 example : slice E0 (.strObj sAEB) [num 1, num 2] = .str [0xE9] := by decide
 
 end OttoVerif.C09.Thm
